@@ -50,6 +50,7 @@ class Decisions:
     """
 
     def __init__(self, seed, replay=None, lenient=False):
+        self.seed = seed
         self.rng = random.Random(seed)
         self.log = []
         self.replay = replay
@@ -126,7 +127,7 @@ class Task:
     __slots__ = ("sched", "tid", "proc", "name", "role", "baton", "state", "pred",
                  "deadline", "timed_out", "killed", "ident", "daemon", "what",
                  "unwound", "is_py_thread", "opsig", "nops", "sigmask", "exc",
-                 "line_gap", "kills_seen", "api", "wobj")
+                 "line_gap", "kills_seen", "api", "wobj", "prio", "_starved")
 
     def __init__(self, sched, proc, name):
         self.sched = sched
@@ -155,6 +156,8 @@ class Task:
         self.kills_seen = 0
         self.api = None
         self.wobj = None
+        self.prio = 0.0
+        self._starved = 0
 
     def __repr__(self):
         return f"<T{self.tid} {self.role} p{self.proc.pid} {self.state} {self.what}>"
@@ -167,9 +170,12 @@ class Sched:
     SPIN_N = 20000      # scheduler steps at one virtual instant: a task spins without ever blocking
 
     def __init__(self, decisions, knobs=None):
-        k = dict(stick=0.5, p_time=0.05, J=0.05, bias={}, max_steps=200000, line_q=0.0)
+        k = dict(stick=0.5, p_time=0.05, J=0.05, bias={}, max_steps=200000, line_q=0.0, pct=0, pct_at=None)
         k.update(knobs or {})
         self.knobs = k
+        # PCT (probabilistic concurrency testing): strict random priorities with `pct` priority-change points
+        self.pct_rng = random.Random((decisions.seed * 2654435761 + 97) & 0xFFFFFFFF)   # same in record and replay
+        self.pct_points = sorted(self.pct_rng.randrange(1, 1500) for _ in range(k["pct"])) if k["pct"] else []
         self.dec = decisions
         self.now = 0.0
         self.tasks = []
@@ -199,6 +205,8 @@ class Sched:
         self.leaked_threads = 0
         self.last_advance_step = 0
         self.spinning = None
+        self._streak_task = None
+        self._streak = 0
         self.task_errors = []
         self.harness_error = None
 
@@ -214,6 +222,12 @@ class Sched:
         cur = self.cur()
         if cur is not None:
             t.sigmask = set(cur.sigmask)
+        if self.knobs["pct"] or self.knobs["pct_at"] or self.knobs.get("line_at"):
+            t.prio = 1.0 + self.pct_rng.random()
+            at = self.knobs["pct_at"]
+            if at and t.role == at["role"] and not getattr(self, "_pct_at_task", None):
+                t.prio = 10.0                 # runs whenever it can ... until its k-th operation
+                self._pct_at_task = t
         self.tasks.append(t)
         self.live.append(t)
         proc.tasks.append(t)
@@ -316,7 +330,34 @@ class Sched:
             kn = self.knobs
             bias = kn["bias"]
             weights = [bias.get(t.role, 1.0) for t in en]
-            if cur is not None and cur.state != DONE and cur in en:
+            if kn["pct"] or kn["pct_at"] or kn.get("line_at"):
+                at = kn["pct_at"]
+                if at and cur is not None and cur is getattr(self, "_pct_at_task", None) and cur.nops >= at["op"] and cur.prio > 0:
+                    cur.prio = -1e9           # single pre-emption point: everybody else runs to quiescence first
+                while self.pct_points and self.steps >= self.pct_points[0]:
+                    self.pct_points.pop(0)
+                    if cur is not None:
+                        cur.prio = -float(len(self.pct_points)) - self.steps * 1e-9
+                top = max(en, key=lambda t: t.prio)
+                # fairness: strict priorities starve everybody behind a task that spins without blocking
+                # (e.g. a worker with timeout=0 retrying its non-blocking lock): demote after a long streak,
+                # and give a deliberately delayed thread its turn back after a while
+                if top is self._streak_task:
+                    self._streak += 1
+                    if self._streak > 150 and len(en) > 1:
+                        top.prio = min(t.prio for t in en if t.prio > -1e8) - 1e-3
+                        self._streak = 0
+                        top = max(en, key=lambda t: t.prio)
+                else:
+                    self._streak_task, self._streak = top, 0
+                for t in en:
+                    if t.prio <= -1e8:
+                        t._starved = getattr(t, "_starved", 0) + 1
+                        if t._starved > 3000:
+                            t.prio = 1.0
+                weights = [1.0 if t is top else 1e-6 for t in en]
+                default = top.tid
+            elif cur is not None and cur.state != DONE and cur in en:
                 default = cur.tid
                 st = kn["stick"]
                 if len(en) > 1 and st > 0:
